@@ -67,6 +67,21 @@ CHECKS = {
         note="As C02. Bounded: 1+1 events (quick), up to 2+2 (thorough); memory and sqlite backends.",
         ref="§7 C04",
     ),
+    "C03": dict(
+        text="Windowed reads: stored events with symbolic instants / durations (any overlap, nesting, zero length), window start / end as arbitrary microseconds with their own symbolic UTC offsets (each optionally absent) and every limit in [-2, N+1]; the real Bucket.get / get_eventcount over memory and sqlite run on the shadows (SQL through the sqlite3 model, float window edges with an explicit rounding-noise model) and z3 decides MUST subset result subset MAY (2 ms tolerance), no duplicates, newest-first, limit = prefix of the unlimited read, count between |MUST| and |MAY|, window rounding, and that returned events equal stored rows.",
+        note="As C02. Events <= 24 h. Bounded: N<=2 (quick), 3 (thorough). The clipping (peewee) backend is not covered yet.",
+        ref="§7 C03",
+    ),
+    "C06": dict(
+        text="Inductive single step over the sqlite commit machinery: symbolic counter, symbolic number of buffered elementary writes (<= counter <= 50), symbolic age of the last flush and symbolic clock readings; every operation kind in lazy and eager mode. z3 decides that bucket operations and reads leave nothing buffered, that after any event write buffered writes <= counter <= 50, that single-event / bucket operations are not split by a commit, and that eager mode leaves nothing buffered. The crash image is the model's committed snapshot.",
+        note="TRUSTED and not verified: SQLite's atomic commit / rollback of everything since the last COMMIT on process death (the 'prefix in issue order' half of the property rests on it). Native validation observes the file through a second real connection. Peewee's autocommit configuration not covered yet.",
+        ref="§5.2, §7 C06",
+    ),
+    "C18": dict(
+        text="Same harness as C06 with the clock symbolic: after any event write returns, whatever is still buffered was buffered no more than ~10 s (11 s) after the most recent flush, for every age of the last flush and every counter value; a sensitivity obligation shows that a recent flush with a low counter keeps buffering.",
+        note="As C06; sqlite.datetime.now() replaced by arbitrary non-decreasing instants.",
+        ref="§7 C18",
+    ),
 }
 
 NOT_YET = "check not built yet (work in progress; see DESIGN.md §7 for the plan)"
